@@ -35,6 +35,23 @@ def assigned_names(nodes):
     return names
 
 
+MUTATORS = ("append", "remove", "extend", "pop", "insert", "clear", "sort", "update", "setdefault", "add")
+
+
+def mutated_containers(nodes):
+    """local names whose container is written in place: x[k] = v, x.append(v), ..."""
+    names = set()
+    for n in nodes:
+        for x in ast.walk(n):
+            if isinstance(x, ast.Subscript) and isinstance(x.ctx, (ast.Store, ast.Del)) \
+                    and isinstance(x.value, ast.Name):
+                names.add(x.value.id)
+            elif isinstance(x, ast.Call) and isinstance(x.func, ast.Attribute) \
+                    and isinstance(x.func.value, ast.Name) and x.func.attr in MUTATORS:
+                names.add(x.func.value.id)
+    return names
+
+
 def fresh_like(E, st, name, cur, spec):
     """havoc value for local `name` whose value before the loop is `cur`"""
     ty = spec.types.get(name)
@@ -111,10 +128,64 @@ def havoc_for_cut(E, st, body_nodes, spec, extra_names=()):
             st.locals[n] = E.fresh_value(st, spec.types[n], n)
         else:
             st.locals[n] = Undefined(n)
+    for n in sorted(mutated_containers(body_nodes)):
+        v = st.locals.get(n)
+        if isinstance(v, Ref):
+            cell = st.cell(v)
+            if isinstance(cell, IntSetCell) or (isinstance(cell, DictCell) and not cell.d):
+                st.set_cell(v, IntSetCell(z3.Array(fresh_name(n + "_present"), z3.IntSort(), z3.BoolSort())))
+            elif isinstance(cell, ListCell):
+                st.set_cell(v, ObjCell("OpaqueList", {}))
+            elif isinstance(cell, DictCell):
+                raise Unsupported(f"non-empty dict {n} mutated inside a cut loop")
     for path in spec.havoc:
         E.havoc_path(st, path, spec)
     if not spec.pure:
         E.havoc_ghost(st)
+
+
+def heap_snapshot(st):
+    return dict(st.heap), st.ghost.get("emitted")
+
+
+def allowed_writes(E, st, spec):
+    allowed = set()
+    for path in list(spec.havoc) + list(spec.modifies):
+        path = path.split(":")[0]
+        if path in E.havoc_models:
+            allowed.add(("model", path))
+            continue
+        try:
+            from .spec import resolve_path
+            owner, attr = resolve_path(E, st, path)
+            allowed.add((owner.addr, attr))
+        except Exception:
+            pass
+    return allowed
+
+
+def check_heap_frame(E, st, snap, spec, ordinal, body_nodes):
+    """a cut loop may only write what it havocked: every other heap cell must be the very
+    same object after one arbitrary iteration"""
+    heap0, em0 = snap
+    allowed = allowed_writes(E, st, spec)
+    containers = {st.locals[n].addr for n in mutated_containers(body_nodes)
+                  if isinstance(st.locals.get(n), Ref)}
+    for addr, cell0 in heap0.items():
+        cell1 = st.heap.get(addr)
+        if cell1 is cell0 or addr in containers:
+            continue
+        if isinstance(cell0, ObjCell) and isinstance(cell1, ObjCell):
+            for a in set(cell0.attrs) | set(cell1.attrs):
+                if cell0.attrs.get(a) is not cell1.attrs.get(a) and (addr, a) not in allowed:
+                    raise Unsupported(f"loop #{ordinal} writes .{a} of a {cell0.cls} object that is not in its "
+                                      "havoc list")
+            continue
+        if ("model", "stream") in allowed and cell0.__class__.__name__ == "StreamCell":
+            continue
+        raise Unsupported(f"loop #{ordinal} writes a heap cell ({cell0.__class__.__name__}) not in its havoc list")
+    if spec.pure and st.ghost.get("emitted") is not em0:
+        raise Unsupported(f"loop #{ordinal} is declared pure but emits diagnostics")
 
 
 def check_inv(E, st, spec, ordinal, tag, env_extra=None):
@@ -135,6 +206,7 @@ def cut_loop(E, stmt, st, spec, ordinal, kind):
     # 2. arbitrary iteration
     havoc_for_cut(E, st, [stmt], spec)
     assume_inv(E, st, spec)
+    snap = heap_snapshot(st)
     v0 = None
     out = []
     for s1, c in E.ev(stmt.test, st):
@@ -148,6 +220,7 @@ def cut_loop(E, stmt, st, spec, ordinal, kind):
             if spec.variant is not None:
                 v0 = E.spec_value(s2, spec.variant)
             for s3, fl in E.exec_block(stmt.body, s2):
+                check_heap_frame(E, s3, snap, spec, ordinal, [stmt])
                 if fl[0] in ("next", "continue"):
                     check_inv(E, s3, spec, ordinal, "step")
                     if spec.variant is not None:
@@ -262,6 +335,7 @@ def cut_for(E, stmt, st, it, spec, ordinal):
     st.assume(z3.And(idx >= 0, idx <= n))
     env = {idxname: SInt(idx), idxname + "_n": mk_int(n)}
     assume_inv(E, st, spec, env)
+    snap = heap_snapshot(st)
     out = []
     for s2, more in E.split(st, idx < n):
         if not more:
@@ -273,6 +347,7 @@ def cut_for(E, stmt, st, it, spec, ordinal):
                 out.append((s3, fl))
                 continue
             for s4, fl2 in E.exec_block(stmt.body, s3):
+                check_heap_frame(E, s4, snap, spec, ordinal, [stmt])
                 if fl2[0] in ("next", "continue"):
                     env1 = {idxname: mk_int(idx + 1), idxname + "_n": mk_int(n)}
                     check_inv(E, s4, spec, ordinal, "step", env1)
